@@ -66,8 +66,8 @@ macro "disp_start" : tactic => `(tactic| (
   generalize hW : evalWhile _ _ _ _ _ = W))
 
 macro "disp_tie" : tactic => `(tactic| (
-  simp (maxSteps := 400000) [rs_eval, chkInt, rs_code, writerArgs, contextValue, trackingValue, updaterValue,
-    ctimespecValue, WMsg.recvd, WMsg.value, WMsg.toMsg, *]
+  simp (maxSteps := 400000) [rs_eval, ↓eval_matchE_G, chkInt, rs_code, writerArgs, contextValue, trackingValue,
+    updaterValue, ctimespecValue, WMsg.recvd, WMsg.value, WMsg.toMsg, *]
   generalize hM : Updater.step _ _ = M
   repeat' split
   all_goals (subst hM; try simp [Updater.step, extractBound, boundF, classify, leapClass, Updater.record, chk,
@@ -110,8 +110,8 @@ theorem disp_ignored (nowNs : Int) (u : Updater) (v : String) (args : List Value
   simp [handledVariant] at hv
   obtain ⟨⟨⟨⟨⟨h1, h2⟩, h3⟩, h4⟩, h5⟩, h6⟩ := hv
   disp_start
-  simp (maxSteps := 400000) [rs_eval, rs_code, writerArgs, contextValue, updaterValue, ctimespecValue, WMsg.recvd,
-    WMsg.value, WMsg.toMsg, turnIsW_next, *]
+  simp (maxSteps := 400000) [rs_eval, ↓eval_matchE_G, rs_code, writerArgs, contextValue, updaterValue, ctimespecValue,
+    WMsg.recvd, WMsg.value, WMsg.toMsg, turnIsW_next, *]
 
 /-- `Ok(Message::ThreadAbort)` ends the loop; nothing is written -/
 theorem disp_abort (nowNs : Int) (u : Updater) (inp : Nat → Value) (log : List Value) (pos : Nat) (pre : List Stmt)
@@ -123,8 +123,8 @@ theorem disp_abort (nowNs : Int) (u : Updater) (inp : Nat → Value) (log : List
       (.done (log ++ [evRecv recvAbort]) (pos + 1)) := by
   revert inp log pos pre c body hfl hin K hK
   disp_start
-  simp (maxSteps := 400000) [rs_eval, rs_code, writerArgs, contextValue, updaterValue, ctimespecValue, recvAbort,
-    turnIsW_done, *]
+  simp (maxSteps := 400000) [rs_eval, ↓eval_matchE_G, rs_code, writerArgs, contextValue, updaterValue, ctimespecValue,
+    recvAbort, turnIsW_done, *]
   -- when the loop ends because a flag was cleared: one more evaluation of its condition
   first
     | done
